@@ -37,6 +37,7 @@ type poolOp struct {
 
 type poolCfg struct {
 	BatchSize uint64            `json:"batch_size"`
+	Timed     bool              `json:"timed,omitempty"` // timed-block mode: batches only on GenerateBlock, also empty ones
 	PoolSize  uint64            `json:"pool_size"`
 	StartSeq  uint64            `json:"start_seq"`
 	Ledger    map[string]uint64 `json:"ledger"` // account index -> committed nonce at start
@@ -81,6 +82,9 @@ type poolRun struct {
 	stats   map[string]int64
 	shape   map[string]bool
 	foreign []string // keys of txs committed by blocks produced elsewhere, never given to the pool before
+	// C19, a few flagged cases: one op that needs real elapsed time (see "supersede-evict")
+	timing, timingDone bool
+	protect            string // hash of a tx the eviction just observed must not have taken
 }
 
 func newPoolRun(prop string, cfg poolCfg) *poolRun {
@@ -100,7 +104,7 @@ func (pr *poolRun) newPool() {
 	lg.SetLevel(logrus.PanicLevel)
 	led := pr.ledger // live: the pool reads the ledger's nonce whenever it first meets an account
 	pr.pool = mempool.NewMemPool(&mempool.Config{
-		ID: 1, BatchSize: pr.cfg.BatchSize, PoolSize: pr.cfg.PoolSize, TxSliceSize: 3, ChainHeight: pr.seq, Logger: lg,
+		ID: 1, BatchSize: pr.cfg.BatchSize, PoolSize: pr.cfg.PoolSize, TxSliceSize: 3, ChainHeight: pr.seq, Logger: lg, IsTimed: pr.cfg.Timed,
 		GetAccountNonce: func(a *types.Address) uint64 { return led[a.String()] },
 	})
 	pr.m = model.NewPool(pr.cfg.BatchSize, pr.seq, func(a string) uint64 { return led[a] })
@@ -154,7 +158,7 @@ func (pr *poolRun) observe(evictAll bool) {
 		if ok {
 			continue
 		}
-		if evictAll && !pr.m.IsReady(tx) && !pr.m.IsBatched(tx) {
+		if evictAll && tx.Hash != pr.protect && !pr.m.IsReady(tx) && !pr.m.IsBatched(tx) {
 			pr.m.Evict(tx)
 			pr.stats["evicted_by_age_rule"]++
 			continue
@@ -260,11 +264,19 @@ func (pr *poolRun) apply(op poolOp) {
 		// a block produced by another node with txs this pool was never given: the ledger advances first
 		// (the executor persists before it reports), then the commit notification arrives
 		var hashes []*types.Hash
+		var ftxs []pb.Transaction
 		for _, k := range op.Txs {
 			tx := mkPoolTx(k)
+			ftxs = append(ftxs, tx)
 			hashes = append(hashes, tx.GetHash())
 			pr.m.CommitForeign(tx.GetFrom().String(), tx.GetNonce()+1)
 			pr.foreign = append(pr.foreign, k)
+		}
+		if op.Arg == 1 {
+			// as on a follower: the block is announced to the pool when it is minted (MarkBatched), executed, and
+			// only then reported as committed
+			pr.pool.MarkBatched(ftxs)
+			pr.stats["foreign_blocks_marked_before_commit"]++
 		}
 		for _, a := range pr.m.Accounts() {
 			pr.ledger[a] = pr.m.Commit(a)
@@ -289,6 +301,31 @@ func (pr *poolRun) apply(op poolOp) {
 			pr.stats["minted_elsewhere"]++
 		}
 		pr.observe(false)
+	case "supersede-evict":
+		tol := time.Duration(op.Arg) * time.Millisecond
+		time.Sleep(tol + 50*time.Millisecond) // everything held so far is now older than the tolerance
+		tx := mkPoolTx(op.Txs[0])
+		mt := []model.PoolTx{toModelTx(tx)}
+		t0 := time.Now()
+		pr.m.Given(mt)
+		adm := pr.m.Admit(mt)
+		pr.stats["txs_offered"]++
+		pr.stats["txs_admitted"] += int64(len(adm))
+		if b := pr.pool.ProcessTransactions([]pb.Transaction{tx}, false, true); b != nil {
+			pr.checkBatch(b.TxList.Transactions, b.Height, "ProcessTransactions")
+		}
+		pr.pool.RemoveAliveTimeoutTxs(tol)
+		if el := time.Since(t0); el < tol && len(adm) == 1 {
+			// the newcomer is younger than the tolerance whatever the scheduler did in between: it must survive,
+			// everything else that is parked may go
+			pr.protect = tx.GetHash().String()
+			pr.stats["obs_superseding_tx_under_age_rule"]++
+			pr.shape["supersede-then-age-rule"] = true
+		} else {
+			pr.stats["timing_inconclusive"]++
+		}
+		pr.observe(true)
+		pr.protect = ""
 	case "evict":
 		d := 1000 * time.Hour
 		if op.Arg < 0 {
@@ -331,6 +368,24 @@ func (pr *poolRun) apply(op poolOp) {
 func (pr *poolRun) gen(r *rand.Rand, nAcct int, ts *int64, known map[string]string) poolOp {
 	op := poolOp{}
 	x := r.Intn(100)
+	if pr.timing && !pr.timingDone && len(pr.ops) > 12 {
+		// once per flagged case: a parked transaction that has been waiting longer than the tolerance is superseded
+		// by another one for its slot, and the age rule runs right away: the newcomer is young
+		for _, tx := range pr.m.Held() {
+			if pr.m.IsReady(tx) || pr.m.IsBatched(tx) {
+				continue
+			}
+			for a := 0; a < nAcct; a++ {
+				if poolAcctAddr(a).String() == tx.Account {
+					*ts++
+					op.Op, op.Arg, op.Note = "supersede-evict", 150, "supersede-then-age-rule"
+					op.Txs = []string{fmt.Sprintf("%d/%d/%d@%d", a, tx.Nonce, 9, *ts)}
+					pr.timingDone = true
+					return op
+				}
+			}
+		}
+	}
 	switch {
 	case x < 48: // arrivals (x in 48..53: foreign block / block minted elsewhere)
 		op.Op = "process"
@@ -394,6 +449,7 @@ func (pr *poolRun) gen(r *rand.Rand, nAcct int, ts *int64, known map[string]stri
 			op.Txs = append(op.Txs, fmt.Sprintf("%d/%d/%d@%d", acct, base+uint64(i), 7, *ts))
 		}
 		op.Note = "commit-foreign"
+		op.Arg = int64(r.Intn(2))
 		if pr.m.Next(addr) > base {
 			op.Note = "commit-foreign-over-own-batch"
 		}
@@ -609,6 +665,7 @@ func poolWorkload(prop string, args []string) int {
 			continue
 		}
 		cfg := poolCfg{BatchSize: uint64(1 + rng.Intn(8)), PoolSize: uint64(4 + rng.Intn(47)), StartSeq: uint64(rng.Intn(5)), Ledger: map[string]uint64{}}
+		cfg.Timed = rng.Intn(4) == 0
 		nAcct := 2 + rng.Intn(4)
 		for i := 0; i < nAcct; i++ {
 			if rng.Intn(3) == 0 {
@@ -618,6 +675,7 @@ func poolWorkload(prop string, args []string) int {
 		w.CaseStart(id, map[string]interface{}{"cfg": cfg, "accounts": nAcct})
 		guard(w, "pool", func() {
 			pr := newPoolRun(prop, cfg)
+			pr.timing = prop == "C19" && id%40 == 7
 			ts := int64(5000)
 			known := map[string]string{}
 			for s := 0; s < steps; s++ {
@@ -660,7 +718,7 @@ func poolWorkload(prop string, args []string) int {
 				}
 				w.Sample(map[string]interface{}{"case": id, "cfg": cfg, "accounts": nAcct, "first_ops": pr.ops[:n]})
 			}
-			w.CaseDone(fmt.Sprintf("b%d|a%d|%s", cfg.BatchSize, nAcct, strings.Join(sh, ",")), len(sh) > 0)
+			w.CaseDone(fmt.Sprintf("b%d|a%d|timed%v|%s", cfg.BatchSize, nAcct, cfg.Timed, strings.Join(sh, ",")), len(sh) > 0)
 		})
 	}
 	w.End()
